@@ -1,7 +1,7 @@
 import KM.Driver.Core
 import KM.Model.Seal
 /-! Driver for C09. Stateful ops:
-`reset <ed 0|1>` · `inj notls|nochain|noform|pass:<hex passphrase>` · `req`
+`reset <ed 0|1>` · `reset2 <ed> <preloaded keys s|e|f…|->` · `inj2 …` (digest + `in=<signer key published><ed key published>`) · `inj notls|nochain|noform|pass:<hex passphrase>` · `req`
 each ↦ `<status> <signer?> <ed?> <#published> <#caCerts> <#readySignals>` -/
 namespace KM.Driver.C09
 open KM.Util KM.Seal
@@ -12,6 +12,16 @@ structure St where
 
 def digest (status : Nat) (s : State) : String :=
   s!"{status} {boolStr s.signer.isSome} {boolStr s.edSigner.isSome} {s.published.length} {s.caKeys.length} {s.readySignals}"
+
+/-- `digest` + which of the two CA keys are in the published list -/
+def digest2 (cfg : Cfg) (status : Nat) (s : State) : String :=
+  let edIn := match cfg.edKey with | some e => s.published.contains e | none => s.published.contains 11
+  s!"{digest status s} in={boolStr (s.published.contains cfg.signerKey)}{boolStr edIn}"
+
+/-- letters `s` (the signer's key, 10), `e` (the Ed25519 CA key, 11), `f` (a foreign key, 99) -/
+def parsePre (t : String) : Option (List Nat) :=
+  if t == "-" then some []
+  else t.toList.mapM (fun ch => if ch == 's' then some 10 else if ch == 'e' then some 11 else if ch == 'f' then some 99 else none)
 
 def parseInj (t : String) : Option Inj :=
   if t == "notls" then some .noTLS
@@ -29,6 +39,18 @@ def stepLine (st : St) : List String → St × String
     | some e =>
       let cfg : Cfg := { correct := 1, signerKey := 10, edKey := if e then some 11 else none }
       ({ cfg := cfg, s := init }, digest 0 init)
+    | none => (st, "bad-op")
+  | ["reset2", ed, pre] =>
+    match parseBool ed, parsePre pre with
+    | some e, some pre =>
+      let cfg : Cfg := { correct := 1, signerKey := 10, edKey := if e then some 11 else none }
+      ({ cfg := cfg, s := initWith pre }, digest2 cfg 0 (initWith pre))
+    | _, _ => (st, "bad-op")
+  | ["inj2", t] =>
+    match parseInj t with
+    | some i =>
+      let (s', status) := inject st.cfg st.s i
+      ({ st with s := s' }, digest2 st.cfg status s')
     | none => (st, "bad-op")
   | ["inj", t] =>
     match parseInj t with
